@@ -96,7 +96,7 @@ func buildAll(cfgs []config) []built {
 			files := probe.ReadProbe("input")
 			// second schema file + hand-written model whose METHODS receive arguments
 			// (props/c02/probe): Box and PointIn are bound through models:
-			for rel, dst := range map[string]string{"methods.graphql": "methods.graphql", "defaults.graphql": "defaults.graphql", "boxmodel/box.go": "boxmodel/box.go"} {
+			for rel, dst := range map[string]string{"methods.graphql": "methods.graphql", "defaults.graphql": "defaults.graphql", "ptrptr.graphql": "ptrptr.graphql", "boxmodel/box.go": "boxmodel/box.go", "boxmodel/ptrptr.go": "boxmodel/ptrptr.go"} {
 				b, err := os.ReadFile(filepath.Join(common.Root, "props", "c02", "probe", rel))
 				if err != nil {
 					probe.Cleanup()
@@ -104,8 +104,8 @@ func buildAll(cfgs []config) []built {
 				}
 				files[dst] = string(b)
 			}
-			files["gqlgen.yml"] = strings.Replace(files["gqlgen.yml"], "  - schema.graphql\n", "  - schema.graphql\n  - methods.graphql\n  - defaults.graphql\n", 1) +
-				"  Box:\n    model: probe/boxmodel.Box\n  PointIn:\n    model: probe/boxmodel.PointIn\n"
+			files["gqlgen.yml"] = strings.Replace(files["gqlgen.yml"], "  - schema.graphql\n", "  - schema.graphql\n  - methods.graphql\n  - defaults.graphql\n  - ptrptr.graphql\n", 1) +
+				"  Box:\n    model: probe/boxmodel.Box\n  PointIn:\n    model: probe/boxmodel.PointIn\n  PPOuter:\n    model: probe/boxmodel.PPOuter\n  PPInner:\n    model: probe/boxmodel.PPInner\n"
 			yml := files["gqlgen.yml"]
 			if cf.NoMap {
 				yml = strings.Replace(yml, mapBinding, "", 1)
@@ -266,6 +266,7 @@ func main() {
 	c.Cov["bounds"] = map[string]any{"tier": c.Tier, "configs": len(cfgs), "max_descent_steps_below_argument": steps,
 		"alphabet":              "absent null true 0 -1 1 2147483647 -2147483648 2147483648 -2147483649 9223372036854775807 9223372036854775808 -9223372036854775808 -9223372036854775809 1.0 1.5 1e3 \"1\" \"-1\" \"1.5\" \"abc\" \"\" \"true\" RED red \"RED\" [] [good] [good,good2] [good,null] [null] [each scalar] [[good]] [[]] [good,[good]] {} {required} {required,f:good|null|{}} {required,unknown:1} {unknown:1} {required:null}; numeric positions (Int Float ID IntID UintID and the scalars bound to graphql.Int32/Int64/Uint/Uint32/Uint64/Float, also as list elements) additionally: 4294967295 4294967296 18446744073709551615 18446744073709551616, the strings \"0\" and every 32/64-bit signed/unsigned boundary and its neighbour as a string, \"1e3\" \"1.0\" \"NaN\" \"Infinity\" \"-inf\"",
 		"default_literal_forms": "input-field defaults (DefIn/DefInner/NullDef, injected by generated code) and argument defaults (Query.defArgs, applied by gqlparser) in every literal form of the kind: Float as 0 / 2 / -3 / 1e3 / 2.5 / -1.5e-2, Int 0 / negative / max, ID as integer and as string and empty, Boolean, enum, strings empty and with escapes, lists empty / mixed forms [1, 2.5, -3, 1e3] / with null / single value coerced to a list / [[Int]] from 1 and from [1, [2, 3]], nested input-object defaults ({...}, {} picking up inner defaults, a single object for a list), null, custom scalars bound to Int32/Int64/Uint/Uint32/Uint64/IntID/UintID/Float and Lit; variable defaults `$v: T = D` with D over the same forms for every position type, variable not provided (all four carriers) or null; positions under Query.def* use the 6-value small alphabet and one descent step",
+		"input_go_shapes":       "generated structs (pointer fields / value fields), graphql.Omittable fields, map[string]any-backed input, and hand-written bound structs with pointer-to-pointer fields (**T for input-object-typed fields, also as list elements []**T and one level down; *[]*int for a list): omitted / explicit null / value are compared as unset / set(null) / set(value)",
 		"variables_carrier":     "whenever the variable is not provided: {\"variables\" key / URL parameter absent, null, {}, object holding only another key}; otherwise the object holding the variable",
 		"transports":            "every request through handler.Server + transport.POST on an httptest recorder; requests whose variable is absent or null, or whose operation declares a variable default or a non-null variable, and the corpus, additionally through transport.GET",
 		"modes":                 "literal; whole argument through a variable; variable nested in a literal object/list; variable with default; non-null variable; nullable variable at a defaulted non-null position"}
@@ -277,7 +278,7 @@ func main() {
 		"`[$v]` with $v not provided: element null or rejection are both accepted (the 2021 text does not define it)",
 		"request-stage rejections (validation, variable coercion) are not required to carry a response path; execution-stage coercion errors must have a path <field>.<argument>... that agrees with a failing position of the reference (an extra index 0 from list coercion is tolerated)",
 		"the probe's custom scalar Lit accepts strings, numbers, booleans and bare names (its definition, probes/input/scalars/lit.go, is part of the schema, not of gqlgen); IntID/UintID follow ID semantics restricted to integers the Go type holds",
-		"absent and explicit null are compared where Go can show the difference (Omittable fields, map-backed inputs); elsewhere both are the zero/nil value",
+		"absent and explicit null are compared where Go can show the difference (Omittable fields, map-backed inputs, pointer-to-pointer fields of hand-written input models); elsewhere both are the zero/nil value. Pointer-to-pointer is used for input-object-typed fields only: `**int` / `**string` fields make the generated code fail to compile (a generation matter, reported to the coordinator)",
 		"the @ad directive must see, from next(), the same value the specification gives for its position; how often it is called is not part of the statement",
 		"probe schema only; random schemas are not generated (sampling is another technique); a list of a map-backed input type ([MapIn]) is left out because generation panicked on it when the probe was written (reported to C17)",
 		"a request whose `variables` carrier is absent, null, {} or holds only undeclared keys provides no variable: CoerceVariableValues still runs (defaults apply, a missing non-null variable is a request error); undeclared keys are ignored",
